@@ -2,7 +2,7 @@
 control-flow graph construction (short-circuit operators split into branch
 edges) and a disjunctive path engine (sets of abstract states, no joins).
 """
-import os, sys
+import os, sys, json
 from collections import defaultdict, deque
 from . import frontend
 from .frontend import AnalysisBroken, REPO
@@ -260,6 +260,42 @@ def _name_indirect_calls(body):
 PROGRAM_STATS = []
 
 
+def _load_signatures():
+    p = os.path.join(os.path.dirname(os.path.dirname(os.path.abspath(__file__))), "tables", "signatures.json")
+    try:
+        return json.load(open(p))
+    except (OSError, ValueError):
+        return {}
+
+
+SIGNATURES = None       # name (or "file:name" for statics) -> reference parameter names; loaded on first use
+
+
+def _normalise_params(fd, relfile):
+    """rename the parameters of a function definition to the names they have on the reference tree (by position), in
+    the parameter list and in every reference inside the body: rules are written with the reference names"""
+    global SIGNATURES
+    if SIGNATURES is None:
+        SIGNATURES = _load_signatures()
+    ref = SIGNATURES.get(fd["n"]) if not fd.get("static") else SIGNATURES.get("%s:%s" % (relfile, fd["n"]))
+    ps = fd.get("params") or []
+    if not ref or len(ref) != len(ps) or fd.get("body") is None:
+        return
+    ren = {p["id"]: r for p, r in zip(ps, ref) if p.get("n") != r and r}
+    if not ren:
+        return
+    # a local that already has the reference name would be captured: leave such functions alone
+    taken = {n.get("n") for n in walk(fd["body"]) if n.get("k") == "Decl"}
+    if taken & set(ren.values()):
+        return
+    for p in ps:
+        if p["id"] in ren:
+            p["n"] = ren[p["id"]]
+    for n in walk(fd["body"]):
+        if n.get("k") == "Ref" and n.get("id") in ren and n.get("rk") == "param":
+            n["n"] = ren[n["id"]]
+
+
 class Program:
     """all units of one configuration"""
 
@@ -280,6 +316,7 @@ class Program:
             self.units[u] = d
             for fd in d["functions"]:
                 _name_indirect_calls(fd.get("body"))
+                _normalise_params(fd, relpath(fd.get("file") or u))
                 f = Func(fd, u)
                 self.by_unit[u].append(f)
                 if f.static or fd.get("inline"):
